@@ -228,6 +228,24 @@ SEEDS = {
            "a diff whose last line has no final newline"),
  'C18-h': ('C18', "DOM writer keeps the streaming writer in self._writer during write_stream; to_bytes uses one module-level DOM writer",
            "two serialisations overlapping in time (two threads) through one DOM writer / through to_bytes"),
+ 'C04-i': ('C04', "writer caches encoded newline bytes per explicit line_endings value; the cache is cleared only when a container declares an encoding",
+           "explicit line_endings on two preambles that inherit their encoding, the second in a sibling change without encoding after a UTF-16 one"),
+ 'C10-i': ('C10', "after a file's metadata says type symlink / directory the reader no longer allows a diff section",
+           "'...meta' with {\"type\": \"symlink\"} followed by '...diff'"),
+ 'C11-i': ('C11', "option key / value character checks moved into a helper called inside an assert statement",
+           "an interpreter started with -O (PYTHONOPTIMIZE): any invalid option character is accepted"),
+ 'C12-i': ('C12', "per-reader memo of option keys that carried text; such keys skip integer conversion on later headers",
+           "the same unknown key on two headers, a word first and an integer later"),
+ 'C14-i': ('C14', "the No-newline marker test moved first and compares line.strip()",
+           "a context line whose text is the marker (' \\ No newline at end of file')"),
+ 'C15-i': ('C15', "guess_line_endings uses one regex escape(cr) + '?' + escape(lf); the ? binds to the last byte of a multi-byte CR",
+           "UTF-16/32 byte content where the character before an LF has a code-unit byte 0x0D / 0x00 (U+0D02, U+4E00)"),
+ 'C16-i': ('C16', "a final unterminated line that is exactly Ctrl-Z is dropped for DOS newlines",
+           "split_lines(b'a\\r\\n\\x1a', b'\\r\\n')"),
+ 'C19-i': ('C19', "content equality walks nested metadata with an explicit stack whose visited set is keyed by id() of the LEFT object only",
+           "metadata holding the same list object under two keys; the other tree differs under the first key only"),
+ 'C20-i': ('C20', "per-section lexer rules end only at headers a hand-written follower table allows; '...meta' lacks '.change'",
+           "a file's metadata directly followed by a new change (file without diff)"),
  'C14-c': ('C14', "num_processed_lines returns the line of the last finalised hunk instead of the loop position",
            "ignore_garbage=True with non-hunk lines after the last hunk, or no hunks at all"),
 }
